@@ -35,7 +35,7 @@ HARNESSES = [
                 "ext2fs_group_first_block2", "ext2fs_group_blocks_count"],
          configs=SHAPES,
          unwind=4, unwindset=["test_root.0:22", "ref_is_power.0:22", "main.1:5"],
-         backends=["z3", "kissat", "default"],
+         backends=["kissat"],
          bound="any group of any geometry: 1..2^32-1 groups, blocks per group 256..8*blocksize (multiple of 8), "
                "block size 1 KiB / 4 KiB, descriptor size 32 / 64, meta_bg + s_first_meta_bg, reserved GDT blocks, "
                "sparse_super / sparse_super2 + backup groups, short last group: all symbolic"),
@@ -43,7 +43,7 @@ HARNESSES = [
          funcs=["ext2fs_group_first_block2", "ext2fs_group_last_block2", "ext2fs_group_blocks_count",
                 "ext2fs_group_of_blk2"],
          configs=SHAPES,
-         unwind=4, backends=["z3", "kissat", "default"],
+         unwind=4, backends=["z3", "kissat"],
          bound="any group / block of any geometry (as reserve_sb)"),
     dict(name="init_geom", src="init_geom.c",
          extra_src=["lib/ext2fs/closefs.c", "lib/ext2fs/blknum.c"],
@@ -56,7 +56,7 @@ HARNESSES = [
                   {"LOGBS": 0, "BPG": 256, "ISIZE": 256, "IS64": 1, "MAXG": 4, "_tier": "thorough"},
                   {"LOGBS": 2, "BPG": 32768, "ISIZE": 256, "IS64": 1, "MAXG": 3, "_unwindset": INIT_UW(3), "_tier": "thorough"}],
          unwind=3, unwindset=INIT_UW(4),
-         backends=["default", "kissat"], cap_quick=240,
+         backends=["kissat"], cap_quick=300,
          cap_thorough=1200,
          bound="1..4 groups of 256 blocks (1 KiB blocks, 128-byte inodes, 32-byte descriptors); block count, requested inode "
                "count (below the blocks_per_group-retry threshold), features {sparse_super, sparse_super2 + num_backup_sb, meta_bg, "
@@ -68,7 +68,7 @@ HARNESSES = [
          configs=[{"N": 8}, {"N": 8, "EDGE": None}],
          unwind=4, unwindset=["main.1:2", "main.2:9", "main.3:9", "ext2fs_count_used_blocks.0:6"] +
                    ["ba_find_first_%s.%d:9" % (w, i) for w in ("set", "zero") for i in range(5)],
-         backends=["default", "kissat"],
+         backends=["default"],
          bound="bit-array bitmap of 8 blocks (first block 1), every content, every range start <= end"),
 ]
 MANIFEST = {
